@@ -311,6 +311,11 @@ def gen_programs(tier):
                 # the globals of a module are visible in all of its functions wherever they stand in the file: the same program with the
                 # global below the function, and between two functions that use the same local names
                 progs.append((fn + "\nint g;", expect, f"{what} {n} at P{pt}, global declared below the function"))
+                # names of one function's parameters and locals mean nothing in another function, whichever comes first
+                if (pt + len(n)) % 2 == 0:
+                    params = "export function h(int a, int b, int c, int i, int z) -> int { return a + b + c + i + z; }"
+                    progs.append((params + "\nint g;\n" + fn, expect, f"{what} {n} at P{pt}, after a function whose parameters have the names of this one's locals"))
+                    progs.append(("int g;\n" + fn + "\n" + params, expect, f"{what} {n} at P{pt}, before a function whose parameters have the names of this one's locals"))
                 if (pt + len(n)) % 3 == 0:
                     other = "export function h(int p) -> int { int a = p; { int b = a; p = b; } return p; }"
                     progs.append((other + "\nint g;\n" + fn, expect, f"{what} {n} at P{pt}, global between two functions"))
